@@ -103,7 +103,7 @@ fn probe1d<T: Fl, S>(
     out: &mut JobOut,
     case: &dyn Fn(Vec<(&str, Json)>) -> Json,
 ) where
-    S: Interp1DStrategy<OwnedRepr<T>, OwnedRepr<T>, Ix2>,
+    S: Interp1DStrategy<OwnedRepr<T>, OwnedRepr<T>, Ix2> + Sync,
 {
     let l = lanes.len();
     let qin = in_queries(x);
